@@ -1,5 +1,5 @@
 SPECIFICATION TraceSpec
-INVARIANTS DiskAtomic BehavAtomic NeverHalf OneConfig
+INVARIANTS DiskAtomic BehavAtomic NeverHalf OneConfig Complete
 CONSTRAINT HWM
 POSTCONDITION Post
 CHECK_DEADLOCK FALSE
